@@ -220,7 +220,11 @@ func (d *romDriver) scenario(big bool) {
 		switch x := r.Intn(20); {
 		case x < 2:
 			e := rom.ReadHeader()
-			d.emit(map[string]interface{}{"k": "readhdr", "err": errClass(e), "ver": rom.Header.HeaderVersion(), "fields": flattenHeader(&rom.Header)})
+			pair := func(u uint32) []int { return []int{int(u & 0xFFFF), int(u >> 16)} }
+			h := &rom.Header
+			d.emit(map[string]interface{}{"k": "readhdr", "err": errClass(e), "ver": h.HeaderVersion(), "fields": flattenHeader(h),
+				"score": []int{h.Score(0x007fb0), h.Score(0x00ffb0), h.Score(0x40ffb0), h.Score(0)},
+				"romsz": pair(h.ROMSizeBytes()), "ramsz": pair(h.RAMSizeBytes())})
 		case x < 5:
 			e := rom.WriteHeader()
 			d.emit(map[string]interface{}{"k": "writehdr", "err": errClass(e)})
